@@ -52,6 +52,16 @@ def specs(tier, seed):
     add("GrandCanonical", "M1", [["e", "E_transrot"], ["d", "D_rot"]], "pairsoft")
     add("GrandCanonical", "M1", [["e", "E_transrot"]], "emt")
     add("GrandCanonical", "A0", [["e", "E_trans"]], "pairsoft", depth=3)
+    # state changed by the user between construction and the first run
+    add("Canonical", "A3", [["d", "D_ball"]], "pairsoft", late=["shift"])
+    add("Isobaric", "A3", [["c", "C_iso"], ["d", "D_ball"]], "pairsoft", late=["strain"])
+    add("Isotension", "T3", [["c", "C_aniso"]], "pairsoft", late=["strain", "shift"])
+    add("Isobaric", "Cu3", [["c", "C_iso"], ["d", "D_ball"]], "emt", late=["strain"])
+    add("GrandCanonical", "A2", [["e", "E_trans"]], "pairsoft", late=["shift"])
+    add("HamiltonianCanonical", "A3", [["h", "H1"]], "harmonic", late=["momenta", "shift"])
+    # collective constraint + vetoed attempts
+    add("Canonical", "A3", [["d", "D_ball"]], "pairsoft", decos=["fixcom"], check=True)
+    add("Canonical", "M", [["d", "D_rot"], ["t", "D_trans"]], "emt", decos=["fixcom"], check=True)
     if tier == "thorough":
         add("GrandCanonical", "A1", [["e", "E_trans"], ["d", "D_ball"]], "pairsoft", depth=4, check=True)
         add("GrandCanonical", "A1", [["x", "D_ball+E_trans", 1.0, "gc"]], "pairsoft", depth=3)
@@ -95,6 +105,32 @@ def _probe(sysm):
     return out
 
 
+def _judge_probe(ev, p, V, counters, hamil, style):
+    bad = False
+    if p["fresh"] is None:
+        return False
+    tol = TOL * max(1.0, abs(p["fresh"]))
+    counters["energy_comparisons"] += 1
+    if p["changes"] is not None:
+        if p["changes"] == [] and p["cached"] is not None:
+            if abs(p["cached"] - p["fresh"]) > tol:
+                V(f"{ev}/reported-energy-stale", f"calculator reports cached {p['cached']!r} for the current atoms, fresh evaluation gives {p['fresh']!r}")
+                bad = True
+        elif not hamil and style != "stateless":
+            V(f"{ev}/recompute-needed", f"after the trial the calculator no longer holds results for the current atoms (changes {p['changes']}): logging the energy costs a recomputation")
+            bad = True
+    if p["last_E"] is not None and not abs(p["last_E"] - p["fresh"]) <= tol:
+        V(f"{ev}/reference-energy-wrong", f"context.last_potential_energy {p['last_E']!r} differs from a fresh evaluation {p['fresh']!r} of the current atoms")
+        bad = True
+    if p["pos_ok"] is False:
+        V(f"{ev}/remembered-positions-differ", "context.last_positions differ from the current positions")
+        bad = True
+    if p["cell_ok"] is False:
+        V(f"{ev}/remembered-cell-differs", "context.last_cell differs from the current cell")
+        bad = True
+    return bad
+
+
 def task(spec):
     depth = spec["depth"]
     policy = Policy(**POLICY)
@@ -107,7 +143,9 @@ def task(spec):
     hamil = any(e[1].startswith("H") for e in spec["table"])
 
     def run(ch):
-        sysm, trials = execute(spec, ch, depth, policy, probe=_probe)
+        from qv.checks.c03 import _late
+
+        sysm, trials = execute(spec, ch, depth, policy, probe=_probe, setup=_late(spec))
         final = {"evals": getattr(sysm.atoms.calc, "evaluations", None)}
         # the calculator must remain usable for the next evaluation
         if not any(t.error for t in trials):
@@ -161,32 +199,15 @@ def task(spec):
                 )
                 if not same:  # a null proposal legitimately hits the cache
                     reached += 1
-            p = t.extra_post
+            probes = [(ev, t.extra_post)]
+            if t is trials[0] and t.extra_pre is not None:
+                probes.insert(0, ("initial", t.extra_pre))
             sets["outcomes"].add((mk, ev, style))
             sets["states"].add(digest(t.post))
             if t.verdict is not True:
                 counters["nontrivial"] += 1
-            if p["fresh"] is None:
-                continue
-            tol = TOL * max(1.0, abs(p["fresh"]))
-            counters["energy_comparisons"] += 1
-            if p["changes"] is not None:
-                if p["changes"] == [] and p["cached"] is not None:
-                    if abs(p["cached"] - p["fresh"]) > tol:
-                        V(f"{ev}/reported-energy-stale", f"calculator reports cached {p['cached']!r} for the current atoms, fresh evaluation gives {p['fresh']!r}")
-                        bad = True
-                elif not hamil and style != "stateless":
-                    V(f"{ev}/recompute-needed", f"after the trial the calculator no longer holds results for the current atoms (changes {p['changes']}): logging the energy costs a recomputation")
-                    bad = True
-            if p["last_E"] is not None and not abs(p["last_E"] - p["fresh"]) <= tol:
-                V(f"{ev}/reference-energy-wrong", f"context.last_potential_energy {p['last_E']!r} differs from a fresh evaluation {p['fresh']!r} of the current atoms")
-                bad = True
-            if p["pos_ok"] is False:
-                V(f"{ev}/remembered-positions-differ", "context.last_positions differ from the current positions")
-                bad = True
-            if p["cell_ok"] is False:
-                V(f"{ev}/remembered-cell-differs", "context.last_cell differs from the current cell")
-                bad = True
+            for pev, p in probes:
+                bad = _judge_probe(pev, p, V, counters, hamil, style) or bad
             if bad:
                 break
         if bad:
